@@ -36,6 +36,15 @@ Fixpoint cw_calls (cs : list (shape * rowk * Z)) (st : cwstate) (w : world) : li
       (res :: rs, st'', w'')
   end.
 
+(** `write_shapes_and_records(self, pairs)`: pair by pair, stopping at the first error. *)
+Fixpoint cw_bulk (cs : list (shape * rowk * Z)) (st : cwstate) (w : world) : res unit * cwstate * world :=
+  match cs with
+  | [] => (Ok tt, st, w)
+  | (s, k, id) :: r =>
+      let '(res, st', w') := cw_write st w s k id in
+      match res with Ok _ => cw_bulk r st' w' | _ => (res, st', w') end
+  end.
+
 (** Reader: `ShapeRecordIterator::next` pulls one shape, then one row, and
     stops when either side ends. *)
 Record crstate := mkcr { cr_shape : rstate; cr_row : Z }.
